@@ -15,7 +15,7 @@ def g_parse_tokens(nmax, **kw):
     return grp('L-PARSE', 'VH_parseTokens', [[n] for n in range(1, nmax + 1)],
                bound='all token sequences of length <= %d over 12 token classes' % nmax,
                symbolic='token class per position (choice variable, 12 values)',
-               asserts=['accept-iff-grammar', 'node-xor-error'], cost=10, **kw)
+               asserts=['accept-iff-grammar', 'node-xor-error'], cost=10, internal=True, **kw)
 
 
 ML = ['inLicenseList']
@@ -30,7 +30,7 @@ def g_lex(tier, seed, **kw):
     mmax = 24 if tier == 'quick' else 47
     shapes = [(0, 0), (0, 1), (2, 2)] if tier == 'quick' else [(0, 0), (0, 1), (1, 1), (2, 2), (1, 3), (2, 0)]
     idj = [[p, m, c] for m in range(1, mmax + 1) for (p, c) in shapes]
-    kw = dict(kw, lift=True)
+    kw = dict(kw, lift=True, internal=True)
     gs = [grp('L-LEX/id', 'VH_lexID', idj, merge=ML, cost=12,
               bound='one scanner step on a run of m <= %d id characters at index p with c following bytes, (p,c) in %s' % (mmax, shapes),
               symbolic='all bytes of the buffer', asserts=LEX_ID_ASSERTS, **kw)]
@@ -361,11 +361,12 @@ def sat_jobs(tier, seed, for_extract=False):
     add('n1', 1, kind_profiles(1, seed, True), ['0'], 'F', 2, 1, 0, 1)
     add('n2', 2, kind_profiles(2, seed, thorough), ['01', '10', '00'], 'FM', 2, 1, 0, 1)
     if thorough:
-        add('n3', 3, kind_profiles(3, seed, True), ident_profiles(3, True), 'FM', 3, 0, 0, 3)
-        add('n3-big-universe', 3, ['LLL', 'LPW', 'RLD', 'OlP', 'WDR'], ['012', '011'], 'M', 2, 1, 0, 3)
-        add('n4', 4, kind_profiles(4, seed, True), ident_profiles(4, True), 'FM', 3, 0, 1, 3)
+        add('n3', 3, kind_profiles(3, seed, True), ident_profiles(3, True), 'FM', 3, 0, 1, 3)
+        add('n3-all-orders', 3, ['LLL', 'LRL', 'RWL', 'PQO', 'DrR', 'UlW'], ['012', '010'], 'M', 3, 0, 0, 3)
+        add('n3-big-universe', 3, ['LLL', 'LPW', 'RLD', 'OlP', 'QWL', 'RrL', 'UlO', 'WQP', 'PPQ', 'DRr', 'OQW', 'lLU'], ['012', '011', '001'], 'M', 3, 1, 1, 4)
+        add('n4', 4, kind_profiles(4, seed, True), ident_profiles(4, True), 'F', 3, 0, 1, 3)
         add('n4-all-orders', 4, ['LLLL', 'LRLR'], ['0123'], 'M', 3, 0, 0, 8)
-        add('n5', 5, kind_profiles(5, seed, False), ['01234', '43210'], 'F', 4, 0, 1, 5)
+        add('n5', 5, kind_profiles(5, seed, False)[:8], ['01234', '43210'], 'F', 4, 0, 1, 5)
         add('n5-m5', 5, ['LLLLL', 'LRLRL'], ['01234'], 'M', 5, 0, 1, 6)
         t6 = trees(6)
         groups.append(('n6-third', [[e, 'LLLLLL', '012345', 'F', 5, 0, 1] if not for_extract else [e, 'LLLLLL', '012345', 'F'] for e in t6[seed % 3::3]], 6, 5, 30))
@@ -508,10 +509,10 @@ def selftest(tier, seed):
              ['MIT OR (ISC AND (Apache-2.0 OR GPL-2.0))', 'ISC', 'GPL-2.0'], ['(', 'MIT'], ['Apache-2.0-or-later AND FOO', 'MIT'],
              ['(Apache-2.0-or-later)', 'Apache-2.0'], ['DocumentRef-a:LicenseRef-b OR MIT+ WITH Bison-exception-2.2', 'DocumentRef-a:LicenseRef-b'],
              ['\xff\xfe', 'MIT'], ['  mit   AND(isc)', 'ISC', ' MIT ']]
-    return [grp('repo-test-inputs', 'VH_selftest', rows + extra, cost=1, compare_notes=True,
+    return [grp('repo-test-inputs', 'VH_selftest', rows + extra, cost=1, compare_notes=True, internal=True,
                 bound='%d (expression, allowed list) inputs taken from the repository\'s own *_test.go files plus %d extra' % (len(rows), len(extra)),
                 symbolic='none (concrete runs: translator validation)', asserts=['ran']),
-            grp('append-capacities', 'VH_selftestCaps', [[]], cost=1, compare_notes=True, bound='append growth of 6 slice types up to 70 elements and 64 multi-element appends',
+            grp('append-capacities', 'VH_selftestCaps', [[]], cost=1, compare_notes=True, internal=True, bound='append growth of 6 slice types up to 70 elements and 64 multi-element appends',
                 symbolic='none', asserts=['ran'])]
 
 
